@@ -319,7 +319,7 @@ def run(ctx):
         "slice::binary_search_by is the size-halving loop of the pinned toolchain (transcribed as Model.bs_loop); the theorems only use that it returns an index holding an equal key iff one exists, so they hold for any correct binary search",
         "ids are natural numbers ordered like the 32-byte arrays (lexicographic byte order = numeric order)",
         "u32 additions in PackHeaderRef::pack_size: both builds are modelled — checked (debug, None = panic) and wrapping (release, pack_size_wrapping); equal whenever the checked build does not panic (release_equals_checked); otherwise the release build reports totals with sizes modulo 2^32 (release_build_characterisation, release_total_size_sum_refuted); both builds of the harness are run",
-        "prune's own index is modelled from the facts regenerated from PrunePlan::from_prune_options (IndexType, the two extend calls); the hook repeats that loop (the code is inline in from_prune_options), so the tie to prune.rs is the extractor, not an end-to-end run of prune",
+        "prune's own index is modelled from the facts regenerated from PrunePlan::from_prune_options (IndexType, the two extend calls); tied to prune.rs by the extractor and by running the real Repository::prune_plan on repositories with crafted index files and one snapshot per queried tree (the pack read it issues shows what its index found); its totals (PackSizer input) are only compared through the hook that repeats the loop",
         "blob_from_backend: backend read and decryption/decompression are arbitrary functions; only which pack/cacheable/offset/length/uncompressed_length reach them is stated (the recording backend sees pack, cacheable, offset, length)",
         "the type of a pack is the type of its first blob (IndexPack::blob_type); for packs that mix blob types the reading by the blob's own type differs (has_iff_listed_mixed_pack_refuted); packs written by the library are homogeneous",
         "explicit pack sizes are u32 values (type of IndexPack::size): premise sizes_are_u32 of total_size_no_overflow",
@@ -441,26 +441,66 @@ def run(ctx):
                     e2e_viol.append((what + " (index loaded by Repository::to_indexed/to_indexed_ids)", ln, detail, orc))
                 d = diff_model(c, ir, mr, orc, MODES[:2], with_iter=False)
                 if d: e2e_mism.append((ln, d))
+    # 5b. prune's own index observed through the real Repository::prune_plan
+    pr_n = 0
+    pr_viol, pr_mism = [], []
+    if model and not ctx.replay:
+        want = 200 if ctx.thorough() else 40
+        sub, sublines = [], []
+        for c, mo in zip(cases, model_out):
+            if len(sub) >= want: break
+            op = mo.partition(" | ")[2].split()
+            if len(op) < 11 or op[10] != "1" or not any(tp == 0 for tp, _ in c["queries"]): continue
+            seen, fs = set(), []
+            for f in c["files"]:
+                key = json.dumps(f, sort_keys=True)
+                if key not in seen:
+                    seen.add(key); fs.append(f)
+            c2 = {"files": fs, "queries": c["queries"]}
+            sub.append(c2); sublines.append(line_of(c2))
+        if sub:
+            po = run_lines(impl, sublines, "prune")
+            pm = run_lines(model, sublines)
+            for c, ln, io, mo in zip(sub, sublines, po, pm):
+                nq = len(c["queries"])
+                mpart, _, opart = mo.partition(" | ")
+                mr = parse_modes(mpart, nq, ntok=3); orc = parse_oracle(opart, nq)
+                toks = io.split()
+                if not toks or toks[0] != "P" or mr[3] == "panic":
+                    pr_mism.append((ln, ["prune_plan harness: %r" % io[:120]])); continue
+                pr_n += 1
+                tq = [(k, i) for k, (tp, i) in enumerate(c["queries"]) if tp == 0][:8]
+                for (k, i), tok in zip(tq, toks[1:]):
+                    rr = tok.split("=", 1)[1]
+                    o = orc["q"][k]
+                    if (rr != "-") != o["listed_any"]:
+                        pr_viol.append(("prune's index finds a tree differently from 'listed anywhere (packs or packs_to_delete)'", ln, "tree %s: read=%s listed_anywhere=%s" % (i, rr, o["listed_any"]), orc))
+                    elif rr != "-" and (not rr.startswith("1:") or not any(cd.rsplit(":", 1)[0] == rr[2:] for cd in o["cands_any"])):
+                        pr_viol.append(("prune reads a tree at a location that is not one of its listings", ln, "tree %s: read=%s listings=%s" % (i, rr, o["cands_any"]), orc))
+                    m_r = mr[3]["q"][k][2]
+                    m_r = m_r if m_r == "-" else m_r.rsplit(":", 1)[0]
+                    if rr != m_r and not (len(o["cands_any"]) > 1 and rr != "-" and m_r != "-"):
+                        pr_mism.append((ln, ["prune_plan: tree %s read impl %s model %s" % (i, rr, m_r)]))
     cov.update({
-        "evaluations": len(cases) + e2e_n + rel_n, "distinct_nontrivial": len(nontriv),
+        "evaluations": len(cases) + e2e_n + rel_n + pr_n, "distinct_nontrivial": len(nontriv),
         "rule": "case = 0-5 index files x 0-6 packs + 0-2 packs_to_delete each, <= %d blobs, ids drawn from a small pool (duplicates across packs and files, same id under both types, ids adjacent in the first and in the last byte, 0 and max), empty packs, explicit and header-derived pack sizes incl. u32 overflow, occasional mixed-type packs; every pool id queried under both types plus absent neighbours, in all three IndexTypes and in the index prune builds for itself (both sections, trees only); the overflow cases and a sample of the others also against a release build of the harness (wrapping u32); repository cases also issue blob_from_backend over a recording backend; non-trivial = at least one query listed and one not listed, no overflow; distinct by case text" % maxblobs,
         "samples": samples, "distribution": hist,
         "queries_evaluated": nq_total,
-        "traces_validated_against_impl": len(cases) + e2e_n + rel_n,
-        "e2e_repository_cases": e2e_n, "release_build_cases": rel_n, "release_build_overflow_cases": rel_over,
-        "disagreements_checked": len(mism) + len(viol) + len(e2e_mism) + len(e2e_viol) + len(rel_mism) + len(rel_viol),
+        "traces_validated_against_impl": len(cases) + e2e_n + rel_n + pr_n,
+        "e2e_repository_cases": e2e_n, "prune_plan_cases": pr_n, "release_build_cases": rel_n, "release_build_overflow_cases": rel_over,
+        "disagreements_checked": len(mism) + len(viol) + len(e2e_mism) + len(e2e_viol) + len(rel_mism) + len(rel_viol) + len(pr_mism) + len(pr_viol),
         "get_id_differences_within_candidate_set": nondet_ok,
-        "model_impl_mismatches": len(mism) + len(e2e_mism) + len(rel_mism), "oracle_violations": len(viol) + len(e2e_viol) + len(rel_viol)})
+        "model_impl_mismatches": len(mism) + len(e2e_mism) + len(rel_mism) + len(pr_mism), "oracle_violations": len(viol) + len(e2e_viol) + len(rel_viol) + len(pr_viol)})
     # 6. decide
     seen_what = set()
-    for what, ln, detail, orc in (viol + e2e_viol + rel_viol)[:50]:
+    for what, ln, detail, orc in (viol + e2e_viol + rel_viol + pr_viol)[:50]:
         if what in seen_what: continue
         seen_what.add(what)
         ctx.violation(what, {"case": ln, "detail": detail,
                              "how_to_replay": "echo '<case>' | <target>/debug/c17 -   (format: harness/src/bin/c17.rs); ./check C17 --replay <this file>"},
                       signature=None)
-    allm = mism + e2e_mism + rel_mism
-    if allm and not (viol or e2e_viol or rel_viol):
+    allm = mism + e2e_mism + rel_mism + pr_mism
+    if allm and not (viol or e2e_viol or rel_viol or pr_viol):
         ctx.violation("correspondence broken: extracted index model disagrees with the implementation (%d cases) although every answer still matches the index files" % len(allm),
                       {"correspondence": "props/C17 Exec.index_of/has/get_id/total_size/into_iter vs IndexCollector/Index (hook c17)",
                        "first": {"case": allm[0][0], "differences": allm[0][1][:5]}}, no_input=True)
